@@ -995,6 +995,10 @@ package parse
 //@   ensures complete: len(result) == 1 && result[0] == t.Body
 //@ func parse.(*MacroNode).All
 //@   ensures complete: len(result) == 1 && result[0] == box(t.Body, "*BodyNode")
+// (the blocks overridden in an embed body are children too: every one of them is in the list)
+//@ func parse.(*EmbedNode).All
+//@   ensures complete: forall k :: mdom("map[string]*BlockNode", t.Blocks, k) ==> (exists i :: 0 <= i && i < len(result) && istype(result[i], "*BlockNode") && unbox(result[i], "*BlockNode") == mval("map[string]*BlockNode", t.Blocks, k))
+//@   loop 1 invariant (forall k :: visited(k) ==> (exists i :: 0 <= i && i < len(r) && istype(r[i], "*BlockNode") && unbox(r[i], "*BlockNode") == mval("map[string]*BlockNode", t.Blocks, k))) && (forall k :: rangedom0(k) == mdom("map[string]*BlockNode", t.Blocks, k))
 //@ func parse.(*PrintNode).All
 //@   ensures complete: len(result) == 1 && result[0] == t.X
 
